@@ -8,7 +8,7 @@ RULE = ('random operation sequences over 1–5 traced functions (two sharing a _
         'scripted dyadic clock, interleaved get_trace(average, max_history) queries and clear_trace(); '
         'every query result compared exactly with the Lean table model; non-trivial = ≥3 calls and ≥1 query '
         'with a window smaller than the history'
-        "; re-entrant call chains (recursion through the same or other traced functions) sent to the model's clock/stack machine as they are; durations with ~31 significant bits (exact in a double, not in a float32); a single enormous sample followed by small ones with windows that exclude it")
+        "; re-entrant call chains (recursion through the same or other traced functions) sent to the model's clock/stack machine as they are; durations with ~31 significant bits (exact in a double, not in a float32); a single enormous sample followed by small ones with windows that exclude it; trace(sync=True) on 1–3 simulated ranks")
 TRUSTED = [
     'Lean 4.33 kernel; axioms audited ⊆ {propext, Classical.choice, Quot.sound}',
     'hand-written model KV.Trace tied to kfac/tracing.py by this correspondence',
@@ -307,6 +307,7 @@ def run(ctx):
         ctx.count('has-clear' if any(o[0] == 'x' for o in ops) else 'no-clear')
         ctx.count('has-raise' if any(o[0] == 'c' and o[3] for o in ops) else 'no-raise')
         ctx.count('has-nonpositive-window' if any(o[0] == 'q' and o[2] is not None and o[2] <= 0 for o in ops) else 'windows>=1')
+    sync_stream(ctx)
     for (case, impl_strs), mo in zip(pend, ctx.model.ask(lines)):
         if mo is None:
             continue
@@ -330,6 +331,61 @@ def run(ctx):
                         ok, why = False, f'{n}: model {q} impl {v!r}'
                         break
         ctx.compare('trace', dict(case, why=why), 'match' if ok else f'differs: {why} | model={mo}', 'match')
+
+
+def sync_stream(ctx):
+    """trace(sync=True): the call runs between two barriers on every rank and is otherwise as transparent as the unsynced
+    wrapper — same return object, same arguments, same exception, one sample per completed call"""
+    import simdist
+    import kfac.tracing as tr
+    rng = ctx.rng
+    for trial in range(ctx.budget(6, 40)):
+        world = rng.choice([1, 2, 3])
+        ncalls = rng.randrange(1, 5)
+        raises = [rng.random() < 0.25 for _ in range(ncalls)]
+        case = {'stream': 'sync', 'world': world, 'calls': ncalls, 'raises': raises}
+        tr.clear_trace()
+
+        def prog(rank, ncalls=ncalls, raises=raises):
+            out = []
+            sentinel = object()
+
+            def work(a, key=None, boom=False):
+                if boom:
+                    raise Boom(7)
+                return (sentinel, a, key)
+            work.__name__ = f'work{rank}'
+            f = tr.trace(sync=True)(work)
+            for i in range(ncalls):
+                arg = object()
+                try:
+                    r = f(arg, key=arg, boom=raises[i])
+                    out.append('ok' if (isinstance(r, tuple) and len(r) == 3 and r[0] is sentinel and r[1] is arg and r[2] is arg) else f'returned {r!r}')
+                except Boom as e:
+                    out.append('boom' if e.args == (7,) else 'other-boom')
+                except Exception as e:  # noqa: BLE001
+                    out.append(f'raised {type(e).__name__}')
+            return out
+        wd, res = simdist.run_world(world, prog, seed=ctx.seed * 409 + trial, stickiness=rng.choice([0.0, 0.5, 0.9]))
+        if wd.stalled or wd.errors or wd.exceptions:
+            # (a raising call skips the second barrier on every rank alike: still matching)
+            ctx.fail(f'synced traced calls: stalled={wd.stalled} errors={wd.errors[:1]} exceptions={dict(list(wd.exceptions.items())[:1])}', case, 'sync-run')
+            tr.clear_trace()
+            continue
+        want = ['boom' if b else 'ok' for b in raises]
+        for rank in range(world):
+            if res[rank] != want:
+                ctx.fail(f'rank {rank}: trace(sync=True) is not transparent: {res[rank]} instead of {want}', case, 'sync-transparent')
+                break
+        got = tr.get_trace(average=False)
+        names = sorted(got)
+        exp_names = sorted(f'work{r}' for r in range(world)) if any(not b for b in raises) else []
+        if names != exp_names:
+            ctx.fail(f'synced calls recorded under {names}, expected {exp_names}', case, 'sync-samples')
+        tr.clear_trace()
+        ctx.evaluations += 1
+        ctx.case(('sync', world, ncalls, tuple(raises)), nontrivial=world > 1)
+        ctx.count('sync-calls')
 
 
 def search(ctx):
